@@ -374,6 +374,10 @@ pub struct Case {
     /// request's message-id) must not disturb it
     #[serde(default)]
     pub b_first: bool,
+    /// (replies) after the damaged bytes a well-formed reply bearing the first request's id
+    /// arrives as well (the damaged frame was an extra one), then the other request's reply
+    #[serde(default)]
+    pub late_reply: bool,
 }
 
 #[derive(Debug, PartialEq, Eq)]
@@ -473,6 +477,70 @@ fn feed_reply_b_first(spec: &ReqSpec, bytes: &[u8]) -> Fed {
     }
 }
 
+/// The bytes are an *extra* frame: afterwards the server still answers the first request (A)
+/// with a well-formed reply, then the other one (B). Only judged when the bytes cannot be
+/// attributed to any request (no `message-id` in them at all, or not UTF-8): the call that read
+/// them has failed, A's late reply belongs to nobody's pending call, and B - whose reply arrives
+/// intact - must still get it.
+pub fn feed_reply_then_late_reply(spec: &ReqSpec, bytes: &[u8]) -> Fed {
+    let attributable = std::str::from_utf8(bytes).is_ok_and(|t| t.contains("message-id"));
+    if attributable {
+        return feed_reply_raw_ordered(spec, bytes, false);
+    }
+    let (mut sess, wire) = establish_caps(&all_caps());
+    let fut_b = match drive(sess.rpc::<GetConfig<Opaque>, _>(|b| {
+        b.source(Ds::Running.to_lib())?.finish()
+    })) {
+        Some(Ok(f)) => f,
+        other => {
+            return Fed::OtherCallerBroken(format!(
+                "harness: cannot send request B: {:?}",
+                other.map(|r| r.map(|_| ()))
+            ))
+        }
+    };
+    let id_b = wire
+        .sent()
+        .last()
+        .and_then(|m| message_id_lenient(m))
+        .unwrap_or_default();
+    let bytes_a = bytes.to_vec();
+    let mut id_a = String::new();
+    let (_s, _req, out) = crate::ops::run_req(sess, &wire, spec, |id| {
+        id_a = id.to_string();
+        vec![bytes_a]
+    });
+    match out {
+        crate::ops::Outcome::SendStuck | crate::ops::Outcome::Refused(_) => {
+            return Fed::OtherCallerBroken(format!("harness: request A not sent: {out:?}"))
+        }
+        crate::ops::Outcome::Stuck => {
+            return Fed::Stuck("reply future of the request that received the bytes")
+        }
+        _ => {}
+    }
+    wire.push(
+        format!("<rpc-reply xmlns=\"{NS_BASE}\" message-id=\"{id_a}\"><ok/></rpc-reply>{MARKER}")
+            .into_bytes(),
+    );
+    wire.push(
+        format!(
+            "<rpc-reply xmlns=\"{NS_BASE}\" message-id=\"{id_b}\"><data>{TAG}</data></rpc-reply>{MARKER}"
+        )
+        .into_bytes(),
+    );
+    match drive(fut_b) {
+        None => Fed::OtherCallerBroken("request B never resolved although its reply arrived".into()),
+        Some(Ok(v)) if &*v == TAG => Fed::Returned {
+            parsed_beyond_root: false,
+        },
+        Some(Ok(v)) => Fed::OtherCallerBroken(format!("request B got foreign data {v:?}")),
+        Some(Err(e)) => Fed::OtherCallerBroken(format!(
+            "request B failed with {e:?}: an undecodable extra frame made the first request fail, the server then answered both requests with well-formed replies, and B's intact reply was not delivered"
+        )),
+    }
+}
+
 pub fn feed_reply_raw_ordered(spec: &ReqSpec, bytes: &[u8], b_first: bool) -> Fed {
     if b_first {
         return feed_reply_b_first(spec, bytes);
@@ -564,6 +632,17 @@ pub fn render_base(base: &Base, style: &Style) -> Vec<u8> {
 
 pub struct Mutations;
 
+fn late(spec: &ReqSpec, bytes: &[u8], obs: &mut Obs) -> Fed {
+    if !std::str::from_utf8(bytes).is_ok_and(|t| t.contains("message-id")) {
+        obs.class("order:extra-frame-then-late-reply-to-the-first-request");
+    }
+    let (spec, b) = (spec.clone(), bytes.to_vec());
+    match catch(move || feed_reply_then_late_reply(&spec, &b)) {
+        Ok(f) => f,
+        Err((loc, msg)) => Fed::Panicked(loc, msg),
+    }
+}
+
 impl Prop for Mutations {
     type Case = Case;
     fn case_time_limit_s(&self) -> u64 {
@@ -601,12 +680,14 @@ impl Prop for Mutations {
             style_strategy(),
             prop::collection::vec(mutation(), 0..4),
             prop::bool::weighted(0.3),
+            prop::bool::weighted(0.3),
         )
-            .prop_map(|(base, style, mutations, b_first)| Case {
+            .prop_map(|(base, style, mutations, b_first, late_reply)| Case {
                 base,
                 style,
                 mutations,
                 b_first,
+                late_reply: late_reply && !b_first,
             })
             .boxed()
     }
@@ -628,11 +709,19 @@ impl Prop for Mutations {
                 if case.b_first {
                     obs.class("order:other-reply-parked-first");
                 }
-                feed_reply_ordered(spec, &bytes, case.b_first)
+                if case.late_reply {
+                    late(spec, &bytes, &mut obs)
+                } else {
+                    feed_reply_ordered(spec, &bytes, case.b_first)
+                }
             }
             Base::Raw(_) => {
                 obs.class("target:raw-as-reply");
-                feed_reply_ordered(&ReqSpec::canonical()[1], &bytes, case.b_first)
+                if case.late_reply {
+                    late(&ReqSpec::canonical()[1], &bytes, &mut obs)
+                } else {
+                    feed_reply_ordered(&ReqSpec::canonical()[1], &bytes, case.b_first)
+                }
             }
         };
         for m in &case.mutations {
